@@ -465,6 +465,211 @@ def c11(ctx):
     r = tv_result(acc, 'design: all request sequences up to %d over 15 requests (3 patterns equal up to case/wildcard x {cs, ci}, 2 files x 3 terminators, 3 stdout terminators) for both manager kinds with the invariants of Manager.tla; code: every request sequence up to 3 as an AND chain plus seeded chains with up to %d resources in random first-occurrence order with repeats, compiled by the real code; Scope.tla on the real let* (bound once, earlier binding, no capture), number of matcher-like and printer-like bindings (classified by behaviour) equal to Manager.tla for that tree, and execution on distinguishing files' % (mlen, pick(ctx, 100, 300)), [], level='model_checking')
     return r
 
+def c16(ctx):
+    acc = Acc()
+    import subprocess, re
+    binp = ctx.t.build('dev')
+    trace = '%s/c16.ndjson' % ctx.work
+    cmd = ctx.t.tlc_cmd('c16_gen', 'MC_Trees', cfg(['Family = "c16"', 'MaxSize = %d' % pick(ctx, 2, 3)], ['EmitTree']), workers=4)
+    tl = subprocess.Popen(cmd, cwd=ctx.t.SPEC, stdout=subprocess.PIPE, stderr=subprocess.STDOUT)
+    with open(trace, 'w') as f:
+        rp = subprocess.run([binp, 'compile-trees'], stdin=tl.stdout, stdout=f, stderr=subprocess.PIPE, text=True, timeout=1800)
+    tl.wait()
+    recs = [json.loads(l) for l in open(trace) if l.startswith('{')]
+    if rp.returncode != 0 or not recs:
+        raise ctx.t.ToolError('program generation failed: ' + rp.stderr[-400:])
+    configs = [(2, 2), (3, 1)] if ctx.quick else [(2, 2), (3, 1), (3, 2)]
+    for (nt, calls) in configs:
+        text = ('CONSTANT NThreads = %d\nCONSTANT Calls = %d\nSPECIFICATION Spec\nINVARIANT InvNoBadRelease\nINVARIANT InvWholeRecords\n'
+                'INVARIANT InvPrints\nPROPERTY Live\nCHECK_DEADLOCK TRUE\n') % (nt, calls)
+        name = 'c16scan_%dx%d' % (nt, calls)
+        cmdl = ctx.t.tlc_cmd(name, 'MC_Scan', text, workers=16)
+        env = dict(os.environ, TRACE=trace)
+        t0 = __import__('time').time()
+        try:
+            p = subprocess.run(cmdl, cwd=ctx.t.SPEC, env=env, capture_output=True, text=True, timeout=pick(ctx, 900, 6000))
+        except subprocess.TimeoutExpired:
+            raise ctx.t.ToolError('TLC timeout in ' + name)
+        out = p.stdout
+        st = ctx.t.parse_tlc_lines(out.split('\n'))
+        st['wall_s'] = __import__('time').time() - t0
+        st['cmd'] = ' '.join(cmdl)
+        acc.add_stage('%s: %d programs, %d threads x %d policy calls, all interleavings' % (name, len(recs), nt, calls), st, len(recs),
+                      [{'tree': recs[0]['t'], 'program': ctx.t.text_of(recs[0]['c']['renders'][0]['text'])[:300]}])
+        bad = None
+        if 'is violated' in out or 'Deadlock reached' in out or 'Temporal properties were violated' in out:
+            m = re.search(r'Invariant (\w+) is violated', out)
+            kind = {'InvWholeRecords': 'torn-or-mixed-records', 'InvNoBadRelease': 'release-of-unheld-mutex', 'InvPrints': 'program-does-not-print'}.get(m.group(1), 'invariant') if m else ('deadlock' if 'Deadlock reached' in out else 'no-progress')
+            mp = re.search(r'vProg = (\d+)', out)
+            pidx = int(mp.group(1)) if mp else 0
+            beh = out[out.find('The behavior up to this point'):][:6000]
+            bad = {'kinds': [kind], 'tree': recs[pidx - 1]['t'] if pidx else None, 'threads': nt, 'calls': calls, 'schedule': beh,
+                   'text': ctx.t.text_of(recs[pidx - 1]['c']['renders'][0]['text']) if pidx else '', 'stage': name}
+            acc.failures.append(bad)
+        elif st['errors']:
+            raise ctx.t.ToolError('TLC reported: ' + ' | '.join(st['errors'][:3]))
+    acc.distinct = len(recs)
+    acc.programs = len(recs)
+    return tv_result(acc, 'AND chains of 1..%d printing actions (9 kinds: stdout/file x newline/NUL/format) plus the implicit print; for each recorded program the atomic steps of a policy call (lock, write, unlock) are extracted from the real text by SchemeEval; TLC explores every interleaving of %s; checked in every state: no release of an unheld mutex; in every terminal state: ports split into whole records (framed: complete frames with the emitted multiset; plain: concatenation of whole critical-section records); no deadlock; <>AllDone under weak fairness' % (pick(ctx, 2, 3), ', '.join('%d threads x %d calls' % c for c in configs)),
+                     ['direct runtime prints (print-relative-path, print-file-fid) are modelled as one atomic write; mixing them with printer output in plain mode is outside what can be decided without the runtime source'], level='model_checking')
+
+def api_validate(ctx, acc, name, trace, kinds, timeout=3000):
+    recs = [json.loads(l) for l in open(trace) if l.startswith('{')]
+    if not recs:
+        raise ctx.t.ToolError('empty API log ' + name)
+    st, verdicts = ctx.t.validate_trace(name, 'Trace_Api', trace, timeout)
+    if len(verdicts) != len(recs):
+        raise ctx.t.ToolError('trace validation judged %d of %d events (%s)' % (len(verdicts), len(recs), name))
+    nrep = sum(1 for v in verdicts if v['memo'] != v['idx'])
+    acc.add_stage(name, st, len(recs), [{'event': recs[i]['ev'], 'input': ctx.t.text_of(recs[i]['i']), 'proc': recs[i]['proc']} for i in range(min(2, len(recs)))],
+                  {'events': len(recs), 'events_compared_with_an_earlier_one': nrep})
+    acc.distinct += len(set((r['ev'], r['eid']) for r in recs))
+    acc.repeats = getattr(acc, 'repeats', 0) + nrep
+    for v in verdicts:
+        if any(k == 'bad-label' for k in v['kinds']):
+            raise ctx.t.ToolError('recorder labelled two different inputs alike (event %d)' % v['idx'])
+        if v['kinds']:
+            r = recs[v['idx'] - 1]
+            f = {'kinds': v['kinds'], 'input': ctx.t.text_of(r['i']), 'i': r['i'], 'event': r['ev'], 'proc': r['proc'], 'seq': r['seq'],
+                 'memo_event': v['memo'], 'stage': name}
+            acc.failures.extend(keep_prefix([f], kinds))
+
+
+def keep_prefix(fails, kinds):
+    out = []
+    for f in fails:
+        k = [x for x in f.get('kinds', []) if x in kinds or x.split(':')[0] in kinds]
+        if k:
+            g = dict(f)
+            g['kinds'] = k
+            out.append(g)
+    return out
+
+
+def record_procs(ctx, name, args, nproc, profile='dev'):
+    """run the recorder in nproc fresh processes with the same seed; concatenate the logs"""
+    trace = '%s/%s.ndjson' % (ctx.work, name)
+    with open(trace, 'w') as out:
+        for p in range(nproc):
+            part = '%s/%s.part' % (ctx.work, name)
+            ctx.t.record(['record-api'] + args + ['--proc', str(p)], part, profile=profile)
+            out.write(open(part).read())
+    return trace
+
+
+DET_KINDS = {'parse-not-deterministic', 'compile-outcome-differs', 'compile-error-differs', 'iomap-differs', 'program-differs',
+             'epoch-outside-compile-window'}
+PURE_KINDS = {'render-panic', 'malformed-program', 'render-structure-differs', 'render-string-count-differs',
+              'render-differs-in-more-than-one-place', 'render-difference-is-not-the-path', 'mdt-mismatch', 'same-path-different-text',
+              'iomap-changes-between-queries'}
+
+
+def c15(ctx):
+    acc = Acc()
+    nproc = pick(ctx, 4, 16)
+    trace = record_procs(ctx, 'c15api', ['--count', str(pick(ctx, 40, 300)), '--seed', str(ctx.seed)], nproc)
+    api_validate(ctx, acc, 'c15api', trace, DET_KINDS)
+    # the release build is another process image: same seed, must give the same events
+    trace2 = record_procs(ctx, 'c15rel', ['--count', str(pick(ctx, 30, 200)), '--seed', str(ctx.seed + 7)], 2, profile='release')
+    api_validate(ctx, acc, 'c15rel', trace2, DET_KINDS)
+    cov = acc.coverage(False, 'seeded expressions (one third OR-chains of 4..13 matchers/printers so that hash-table iteration order would show), each parsed and compiled 3 times in one process interleaved with the other expressions, in %d fresh processes; every event is compared with the first event for the same argument (the memo of Api.tla); programs compared after replacing integer literals inside the [t0,t1] window of their compile call by NOW, whose number must equal the number of time tests' % nproc,
+                       {'evaluations': acc.traces, 'distinct_nontrivial': acc.distinct, 'events_compared_with_an_earlier_one': getattr(acc, 'repeats', 0)})
+    return {'level': 'exploration', 'coverage': cov, 'assumptions': ASSUME_COMMON + ['wall-clock seconds t0, t1 are read by the harness immediately before and after compile()'], 'failures': acc.failures}
+
+
+def c20(ctx):
+    acc = Acc()
+    trace = record_procs(ctx, 'c20api', ['--count', str(pick(ctx, 25, 400)), '--seed', str(ctx.seed), '--paths', 'hostile'], 1)
+    api_validate(ctx, acc, 'c20api', trace, PURE_KINDS, timeout=6000)
+    cov = acc.coverage(False, 'seeded compiled expressions x 8 renderings for device paths {/, /dev/mdt0, with a blank, with a double quote, with a backslash, trailing backslash, non-ASCII and ~;(, / again} interleaved with destination-table queries, each compiled 3 times; checked by Api.tla RenderKinds: equal skeletons, string literals equal except one position, that literal is the first argument of the scan call and decodes to the path, same path => identical text, table queries never change',
+                       {'evaluations': acc.traces, 'distinct_nontrivial': acc.distinct})
+    return {'level': 'model_checking', 'coverage': cov, 'assumptions': ASSUME_COMMON + ["Guile's lexical syntax as transcribed in SchemeRead.tla"], 'failures': acc.failures}
+
+
+def total_validate(ctx, acc, name, trace, timeout=3000):
+    nrec = sum(1 for l in open(trace) if l.startswith('{'))
+    cfgt = 'CONSTANT Stride = 16\nCONSTANT CheckSpec = FALSE\nINIT Init\nNEXT Next\nINVARIANT Emit\nINVARIANT EmitCount\nCHECK_DEADLOCK FALSE\n'
+    st, js = ctx.t.run_tlc_only(name, 'Trace_Total', cfgt, timeout, env={'TRACE': trace})
+    if st['errors']:
+        raise ctx.t.ToolError('TLC reported: ' + ' | '.join(st['errors'][:3]))
+    out = [json.loads(j) for j in js]
+    counts = [o['count'] for o in out if 'count' in o]
+    if not counts or counts[0] != nrec:
+        raise ctx.t.ToolError('Trace_Total read %s of %d records' % (counts, nrec))
+    recs = None
+    bad = [o for o in out if 'kinds' in o]
+    if bad:
+        recs = [json.loads(l) for l in open(trace) if l.startswith('{')]
+    acc.add_stage(name, st, nrec, [], {'records': nrec})
+    for o in bad:
+        r = recs[o['idx'] - 1]
+        acc.failures.append({'kinds': o['kinds'], 'input': ctx.t.text_of(r['i']), 'i': r['i'], 'observed': {k: r[k] for k in 'pcrm'}, 'stage': name})
+    return nrec
+
+
+def c03(ctx):
+    acc = Acc()
+    TOTAL = {'panic', 'compile-panic', 'render-panic', 'iomap-panic', 'timeout'}
+    # G: exhaustive short argument strings after every argument-taking keyword, whole pipeline
+    for prof in ('dev', 'release'):
+        st, summ, fails = ctx.t.run_tlc_replay('c03g_' + prof, 'MC_C03', cfg(['MaxLen = %d' % pick(ctx, 2, 3)], ['EmitVector']), ['replay-parse', '--total'], 3000, profile=prof)
+        acc.add_stage('c03g_' + prof, st, summ.get('vectors', 0), summ.get('samples', [])[:1])
+        acc.distinct += summ.get('distinct', 0) if prof == 'dev' else 0
+        for f in keep(fails, TOTAL):
+            f['stage'] = 'c03g_' + prof
+            acc.failures.append(f)
+    # numeric boundary values (C07's machine), whole pipeline, release build (unchecked arithmetic)
+    st, summ, fails = ctx.t.run_tlc_replay('c03num', 'MC_C07', cfg(['Seed = %d' % (ctx.seed % 100000), 'NRandom = %d' % pick(ctx, 2, 40)], ['EmitVector']), ['replay-parse', '--total'], 3000, profile='release')
+    acc.add_stage('c03num_release', st, summ.get('vectors', 0), summ.get('samples', [])[:1])
+    for f in keep(fails, TOTAL):
+        f['stage'] = 'c03num'
+        acc.failures.append(f)
+    # T: grammar-aware generation, prefixes, mutations, nesting to 64, inputs to 4 KiB; both builds
+    for prof in ('dev', 'release'):
+        trace = '%s/c03t_%s.ndjson' % (ctx.work, prof)
+        wd = ctx.t.record(['record-total', '--count', str(pick(ctx, 25000, 400000)), '--seed', str(ctx.seed)], trace, profile=prof, timeout=3000)
+        for f in wd:
+            f['stage'] = 'c03t_' + prof
+            acc.failures.append(f)
+        n = total_validate(ctx, acc, 'c03t_' + prof, trace)
+        if prof == 'dev':
+            acc.distinct += len(set(l for l in open(trace)))
+    cov = acc.coverage(False, 'every argument-taking keyword x all argument strings up to length %d over {0 7 8 9 + - , / = %% \\ k u x}; numeric boundary strings of MC_C07; seeded valid expressions, every prefix of valid inputs, single-character mutations (delete/replace/insert/truncate), nesting of ( and ! up to 64, inputs up to 4 KiB; each run through parse -> compile -> scheme -> io_map -> Display under catch_unwind with a 5 s watchdog, in the dev and the release build; Trace_Total.tla accepts only ok/err at every stage' % pick(ctx, 2, 3),
+                       {'evaluations': acc.traces, 'distinct_nontrivial': acc.distinct})
+    return {'level': 'exploration', 'coverage': cov, 'assumptions': ASSUME_COMMON + ['non-termination is observed by a watchdog (5 s per call); the specification can only state it'], 'failures': acc.failures}
+
+
+def c17(ctx):
+    acc = Acc()
+    n = pick(ctx, 15000, 150000)
+    traces = {}
+    for prof in ('dev', 'release'):
+        traces[prof] = '%s/c17_%s.ndjson' % (ctx.work, prof)
+        wd = ctx.t.record(['record-total', '--count', str(n), '--seed', str(ctx.seed), '--full'], traces[prof], profile=prof, timeout=3000)
+        for f in wd:
+            f['stage'] = 'c17_' + prof
+            acc.failures.append(f)
+    paired = '%s/c17_pairs.ndjson' % ctx.work
+    a = [l for l in open(traces['dev']) if l.startswith('{')]
+    b = [l for l in open(traces['release']) if l.startswith('{')]
+    if len(a) != len(b):
+        acc.failures.append({'kinds': ['different-number-of-records'], 'input': '', 'stage': 'c17'})
+    with open(paired, 'w') as f:
+        for x, y in zip(a, b):
+            f.write('{"a":%s,"b":%s}\n' % (x.strip(), y.strip()))
+    st, verdicts = ctx.t.validate_trace('c17pair', 'Trace_Pair', paired, 6000)
+    if len(verdicts) != min(len(a), len(b)):
+        raise ctx.t.ToolError('Trace_Pair judged %d of %d pairs' % (len(verdicts), len(a)))
+    acc.add_stage('c17pair', st, len(verdicts), [{'input': ctx.t.text_of(json.loads(a[0])['i'])}], {'pairs': len(verdicts)})
+    acc.distinct = len(set(a))
+    for v in verdicts:
+        if v['kinds']:
+            ra = json.loads(a[v['idx'] - 1])
+            acc.failures.append({'kinds': v['kinds'], 'input': ctx.t.text_of(ra['i']), 'i': ra['i'], 'stage': 'c17pair'})
+    cov = acc.coverage(False, 'the C03 corpus (valid, invalid, boundary, mutated, nested, long inputs; %d inputs) evaluated by a dev-profile and a release-profile build of the same recorder; Trace_Pair.tla requires the two observations of every input to be the same behaviour: parse result, compile outcome and error text, destination table, program up to the embedded epoch; a panic in either build is reported' % n,
+                       {'evaluations': acc.traces, 'distinct_nontrivial': acc.distinct})
+    return {'level': 'exploration', 'coverage': cov, 'assumptions': ASSUME_COMMON + ['dev profile: debug assertions and overflow checks on; release profile: both off (harness/Cargo.toml)'], 'failures': acc.failures}
+
 
 def front_only(fn, level, rule, assumptions):
     def run(ctx):
@@ -474,7 +679,7 @@ def front_only(fn, level, rule, assumptions):
     return run
 
 
-REGISTRY = {'C01': c01, 'C14': c14, 'C05': c05, 'C06': c06, 'C18': c18, 'C19': c19, 'C02': c02, 'C09': c09, 'C10': c10, 'C12': c12, 'C07': c07, 'C08': c08, 'C13': c13, 'C04': c04, 'C11': c11}
+REGISTRY = {'C01': c01, 'C14': c14, 'C05': c05, 'C06': c06, 'C18': c18, 'C19': c19, 'C02': c02, 'C09': c09, 'C10': c10, 'C12': c12, 'C07': c07, 'C08': c08, 'C13': c13, 'C04': c04, 'C11': c11, 'C16': c16, 'C03': c03, 'C15': c15, 'C17': c17, 'C20': c20}
 
 
 
